@@ -11,11 +11,12 @@ Definition C25_full : Prop :=
 
 (* Proved for the fragment [ok]: symbols, keywords, numbers, strings and bytes of any content, bracket strings,
    lists, tuples, sets, dicts, parenthesised forms, the six sugared forms, dotted identifiers, and f-strings /
-   t-strings written with quotes (String components of any content, fields over any fragment model, with a
-   conversion and with a format spec that is plain text or a nested field), all nested to any depth.
+   t-strings written with quotes (String components of any content, fields over any fragment model -- also one
+   printed with a leading brace --, with a conversion and with a format spec of any number of plain-text and
+   nested-field components), all nested to any depth.  Bracket strings may start with a newline.
    Missing from the proof (_partial): bracket f-strings (#[f[ ... ]f]), whose printer and reader models exist and
    are compared with the implementation on every run.  Outside the fragment by defect of the printer: the
-   eight classes refuted below. *)
+   six classes refuted below. *)
 Theorem C25_repr_read_roundtrip_partial :
   forall W : oracle, num_facts W -> forall m, ok W m -> repr_roundtrips W m.
 Proof. exact repr_read_roundtrip. Qed.
@@ -31,15 +32,9 @@ Print Assumptions C25_inner_roundtrip.
 
 (* Refutations of C25_full: models the reader produces (from the text in the comment) whose printed form does
    not read back to them; computed in Print/Witness25.v, replayed on the implementation by props/c25.py. *)
-Theorem C25_refuted_spec_rest_dropped :          (* f"{a :>{w}}" *)
+Theorem C25_refuted_spec_adjacent_strings :      (* f"{x :a{y = }}" *)
   exists m, readable W_plain m /\ ~ repr_roundtrips W_plain m.
-Proof. exact spec_rest_dropped. Qed.
-Theorem C25_refuted_bracket_leading_newline :    (* #[[ NL NL x]] *)
-  exists m, readable W_plain m /\ ~ repr_roundtrips W_plain m.
-Proof. exact bracket_leading_newline. Qed.
-Theorem C25_refuted_field_form_brace :           (* f"{ {a b}}" *)
-  exists m, readable W_plain m /\ ~ repr_roundtrips W_plain m.
-Proof. exact field_form_brace. Qed.
+Proof. exact spec_adjacent_strings. Qed.
 Theorem C25_refuted_dotted_form_parts :          (* (. a ... b) *)
   exists m, readable W_plain m /\ ~ repr_roundtrips W_plain m.
 Proof. exact dotted_form_parts. Qed.
@@ -55,7 +50,7 @@ Proof. exact unquote_dotted_at. Qed.
 Theorem C25_refuted_bracket_fstring_cr :         (* #[f[{a CR = }]f] *)
   exists m, readable W_plain m /\ ~ repr_roundtrips W_plain m.
 Proof. exact bracket_fstring_cr. Qed.
-Print Assumptions C25_refuted_spec_rest_dropped.
+Print Assumptions C25_refuted_spec_adjacent_strings.
 Print Assumptions C25_refuted_unquote_dotted_at.
 
 (* the oracle hypotheses are satisfiable *)
@@ -71,3 +66,10 @@ Proof. exact example_ok. Qed.
 (* ... and by the f-string  f"a{x !r :{w}}" *)
 Example C25_hypotheses_met_fstring : forall W, num W [120] = NotNum -> num W [119] = NotNum -> ok W m_fexample.
 Proof. exact example_fstr_ok. Qed.
+
+(* The inputs of the three repaired defects (74a77a1, 097ab1b, 1b21d76) are inside the fragment now. *)
+Example C25_fixed_bracket_leading_newline : forall W, ok W m_bracket_nl.
+Proof. exact bracket_nl_ok. Qed.
+Example C25_fixed_spec_components_and_brace_form : forall W,
+  num W [97] = NotNum -> num W [98] = NotNum -> num W [119] = NotNum -> ok W m_dict_spec.
+Proof. exact dict_spec_ok. Qed.
